@@ -17,13 +17,20 @@ VIOLATION with a replay on seed 0, quick tier:
   M9 TextIndex: `applyNotEq = applyNotContains` -> `applyNotEq = applyContains`            caught (nq via applyNotEq)
   M10 unindex_doc: `for wid in TreeSet(get_words(docid))` -> over `get_words(docid)[:-1]` (the last word's posting
      keeps the document)                                                                  caught (atom after unindex)
+Seeded changes missed before the vocabulary had words with a repeated prefix / characters beyond the BMP, now caught
+(C03_E: prog.search instead of prog.match, `co?` matches `cocoa` through its tail; C03_D: range scan bounded by
+prefix + U+FFFF skips words continuing with an astral character); further mutations of these classes and of the
+zero-token class (C03_C), each VIOLATION on quick seed 0:
+  M11 globToWordIds: pattern for the part after the prefix, matched against key.lstrip(prefix)   caught (glob)
+  M12 range scan bounded by prefix + U+1FFFF (only plane-2/3 continuations are skipped)     caught (glob; missed before)
+  M13 reindex_doc with a text without tokens unindexes the document                         caught (nq / obs)
 """
 import re
 import sys
 
 from lib.core import exc_name, idset
 from props import c15
-from props.c15 import enc, dec
+from props.c15 import enc, dec, twice_globs, glob_classes, TWICE_WORDS, HIGH_WORDS, HIGH_CHARS
 
 ID = "C03"
 AUDIT_IMPORTS = ["HypatiaProofs.Properties.C03"]
@@ -44,7 +51,17 @@ RULE = ("each case = one real TextIndex (Okapi or cosine back end, family32/64, 
         "(thorough only: 17 000 fillers, 3-byte ids); after operations and at the end 6-30 queries from the "
         "grammar (atoms known/unknown/stop/mixed case, phrases cut from documents incl. repeated words, "
         "near-miss phrases ending in a word whose id code is a prefix of the following document word's, "
-        "punctuation-joined phrases, globs prefix*/infix?/several, hyphen-NOT, AND/OR/AND NOT/NOT, parentheses), "
+        "punctuation-joined phrases, globs prefix*/infix?/several/?-only, hyphen-NOT, AND/OR/AND NOT/NOT, "
+        "parentheses); 40% of the vocabularies get 1-3 words in which a prefix occurs twice (cocoa, murmur, or derived "
+        "from the case's words) and 40% get 1-3 words with a character beyond U+00FF or beyond the BMP after a prefix "
+        "(U+0100, U+03A9, CJK, U+FFDC, U+10000, cased U+10400, U+1D400, U+1D7D9, U+20BB7, U+323AF), with globs cut at "
+        "exactly those places (?-only patterns fitting only the word's tail; prefix ending before the high "
+        "character); 5% of the operations start a zero-token episode (empty / white space / punctuation / stop-word "
+        "text, then unindex / re-index with text, without tokens or without value, then mostly NOT queries and "
+        "obs/obsfresh); measured quick seed 0, of 1600 cases: a glob for which only a tail of a vocabulary word fits "
+        "588, a glob match continuing beyond the BMP 470, beyond U+00FF 839, NOT query after a zero-token document "
+        "was removed 1096, with one present 1081, zero-token document unindexed 635 / re-indexed with text 819 / "
+        "without tokens again 355, "
         "each through one of apply/applyContains/applyEq/contains().execute()/eq().execute() resp. "
         "applyNotContains/applyNotEq/notcontains().execute()/noteq().execute(); answers compared as sorted id "
         "sets with the model's and the specification's (filter of the document table by sat). non-trivial = at "
@@ -60,6 +77,9 @@ SPACES = [c for c in range(sys.maxunicode + 1) if re.match(r"\s", chr(c))]
 BASE_WORDS = ["apple", "app", "apply", "ape", "bat", "bath", "cat", "cot", "cut", "dog", "x1", "a_b", "café", "straße",
               "中文", "zed", "w1", "w130", "ab", "abc", "b"]
 SEPS = [" ", " ", " ", "  ", ", ", ". ", "-", "\n", "\t", " ", "/", "'"]
+ZERO_TEXTS = ["", "", " ", "\n\t", "the", "The AND of", "and the", "... - !", ", ", "-", "'", "a", "of\nthe"]
+
+
 PIPELINES = {"default": ["splitter", "case", "stop"], "nostop": ["splitter", "case"],
              "single": ["splitter", "case", "single"], "html": ["html", "stop"]}
 QENTRY = ["apply", "applyContains", "applyEq", "contains", "eq"]
@@ -264,15 +284,60 @@ def q_atom(rng, ctx):
     if r < 0.7:
         return '"%s"' % " ".join(rng.choice(words) for _ in range(rng.randrange(2, 4)))
     if r < 0.88:
-        w = rng.choice(words)
-        k = rng.randrange(1, len(w) + 1)
-        return rng.choice([w[:k] + "*", w[:k] + "?" + w[k + 1:], w[:1] + "*" + w[-1:], w + "*", w[:k] + "*" + "?",
-                           w[:1] + "?" * (len(w) - 1)])
+        return q_glob(rng, words)
     if r < 0.93:
         return rng.choice(["unknownword", "zzz", "q", "nope*", "f00003", "f00131"])
     if r < 0.97:
         return rng.choice(stops)
     return '"%s* %s"' % (rng.choice(words)[:2], rng.choice(words))      # glob character inside a phrase
+
+
+def q_glob(rng, words):
+    special = [w for w in words if twice_globs(w) or any(ord(c) > 0xFF for c in w[1:])]
+    w = rng.choice(special) if special and rng.random() < 0.45 else rng.choice(words)
+    k = rng.randrange(1, len(w) + 1)
+    tw = twice_globs(w)
+    if tw and rng.random() < 0.55:
+        return rng.choice(tw)               # no '*': only the word's tail fits
+    hi = [i for i, c in enumerate(w) if i > 0 and ord(c) > 0xFF]
+    if hi and rng.random() < 0.6:
+        i = rng.choice(hi)                  # the literal prefix ends right before a character > U+00FF
+        return w[:i] + rng.choice(["*", "?" + w[i + 1:], "?" * (len(w) - i), "*" + w[-1:], "?*", "*?"])
+    return rng.choice([w[:k] + "*", w[:k] + "?" + w[k + 1:], w[:1] + "*" + w[-1:], w + "*", w[:k] + "*" + "?",
+                       w[:1] + "?" * (len(w) - 1), w[:k] + "?" * (len(w) - k), w[:k] + "?" * (len(w) - k + 1)])
+
+
+def special_words(rng, words):
+    """1-3 words of each special class: static ones and ones derived from the case's own words"""
+    out = []
+    if rng.random() < 0.4:
+        for _ in range(rng.randrange(1, 4)):
+            if rng.random() < 0.5:
+                out.append(rng.choice(TWICE_WORDS))
+            else:
+                w = rng.choice(words)
+                k = rng.randrange(1, min(len(w), 3) + 1)
+                out.append(w[:k] + rng.choice(["", "x", w[k:]]) + w[:k] + rng.choice(["a", "1", w[k:k + 1] + "z", w[-1:]]))
+    if rng.random() < 0.4:
+        for _ in range(rng.randrange(1, 4)):
+            if rng.random() < 0.5:
+                out.append(rng.choice(HIGH_WORDS))
+            else:
+                w = rng.choice(words)
+                k = rng.randrange(1, len(w) + 1)
+                out.append(w[:k] + rng.choice(HIGH_CHARS) + rng.choice(["", "", w[k:], "z"]))
+    return [w for w in out if w not in words]
+
+
+def zero_textarg(rng, pl):
+    """a text without a single token: empty, white space, punctuation, stop words (where the pipeline drops them)"""
+    pool = [t for t in ZERO_TEXTS if pl in ("default", "single", "html") or not re.search(r"\w", t)]
+    if pl == "html":
+        pool = pool + ["<b></b>", "&amp;", "<p>the</p>", "<>"]
+    r = rng.random()
+    if r < 0.75:
+        return ["s", enc(rng.choice(pool))]
+    return ["l"] + [enc(rng.choice(pool)) for _ in range(rng.randrange(0, 3))]
 
 
 def q_term(rng, ctx, depth):
@@ -299,13 +364,13 @@ def q_or(rng, ctx, depth):
     return s
 
 
-def gen_queries(rng, ctx, n, cmds):
+def gen_queries(rng, ctx, n, cmds, neg=0.28):
     for _ in range(n):
         q = q_or(rng, ctx, 0)
         r = rng.random()
         if r < 0.12:
             cmds.append(["qk", "apply", enc(q)])
-        elif r < 0.72:
+        elif r < 1.0 - neg:
             cmds.append(["q", rng.choice(QENTRY), enc(q)])
         else:
             cmds.append(["nq", rng.choice(NQENTRY), enc(q)])
@@ -327,6 +392,7 @@ def gen(rng, tier, idx):
     words = rng.sample(BASE_WORDS, nw)
     if rng.random() < 0.06:
         words.append(rng.choice(["İstanbul", "İ", "ı", "Kelvin"]))
+    words += special_words(rng, words)
     cmds = []
     docs = {}
     early, late = [], []
@@ -359,6 +425,30 @@ def gen(rng, tier, idx):
     def ctx():
         return (words, [v for k, v in docs.items() if k != 1000 and v is not None], stops, early, late)
 
+    def zero_episode(d):
+        """a document without tokens is indexed, then (often) removed / re-indexed, then NOT queries and an observation"""
+        cmds.append(["index", d] + zero_textarg(rng, pl))
+        docs[d] = []
+        if rng.random() < 0.4:
+            gen_queries(rng, ctx(), rng.randrange(1, 3), cmds, neg=0.7)
+        r = rng.random()
+        if r < 0.4:
+            cmds.append(["unindex", d])
+            docs.pop(d, None)
+        elif r < 0.55:
+            cmds.append(["index", d] + zero_textarg(rng, pl))
+        elif r < 0.7:
+            toks = gen_doc_tokens(rng, words, early, late)
+            cmds.append(["index", d] + gen_textarg(rng, toks, stops))
+            docs[d] = toks
+        elif r < 0.8:
+            cmds.append(["index", d, "n"])
+            docs[d] = None
+        if rng.random() < 0.7:
+            gen_queries(rng, ctx(), rng.randrange(1, 4), cmds, neg=0.7)
+        if rng.random() < 0.5:
+            cmds.append([rng.choice(["obs", "obs", "obsfresh"])])
+
     for _ in range(nops):
         r = rng.random()
         d = rng.choice(ids)
@@ -371,7 +461,9 @@ def gen(rng, tier, idx):
         elif r < 0.2:
             cmds.append(["index", d, "n"])
             docs[d] = None
-        elif r < 0.28 and docs.get(d):
+        elif r < 0.25:
+            zero_episode(d)
+        elif r < 0.33 and docs.get(d):
             # re-index the same or a slightly changed text
             toks = list(docs[d])
             if rng.random() < 0.6 and toks:
@@ -442,6 +534,19 @@ def features(case, outs):
     f = ["vocab:" + cd.get("vocab", "?"), "backend:" + cd.get("backend", "?"), "family:" + cd.get("family", "?"),
          "pipeline:" + "+".join(cd["pipeline"])]
     known = {}
+    toks = {}               # docid -> set of tokens (approximation of the pipeline, for measuring only)
+    stops = set(c15.stops()) if ("stop" in cd["pipeline"] or "single" in cd["pipeline"]) else set()
+    zero_gone = False       # a document without tokens was unindexed / re-indexed since the last reset
+
+    def tokens_of(c):
+        text = " ".join(dec(x) for x in c[3:])
+        if "html" in cd["pipeline"]:
+            text = re.sub(r"<[^<>]*>|&[A-Za-z]+;", " ", text)
+        ws = set(re.findall(r"\w+", text.lower())) - stops
+        if "single" in cd["pipeline"]:
+            ws = {w for w in ws if len(w) > 1}
+        return ws
+
     for c, o in zip(case["cmds"], outs):
         op = c[0]
         if o.startswith("err"):
@@ -452,15 +557,48 @@ def features(case, outs):
             same = prev not in ("new", "none") and now == "text" and prev == tuple(c[2:])
             f.append("index:%s->%s%s" % (prev if prev in ("new", "none") else "text", now, "(same)" if same else ""))
             known[c[1]] = "none" if c[2] == "n" else tuple(c[2:])
+            was_zero = c[1] in toks and not toks[c[1]]
+            if now == "text":
+                ws = tokens_of(c)
+                if not ws:
+                    f.append("zero-token-doc:index-%s" % ("again" if was_zero else "new" if c[1] not in toks else "over-text"))
+                elif was_zero:
+                    f.append("zero-token-doc:reindexed-with-text")
+                    zero_gone = True
+                toks[c[1]] = ws
+            else:
+                if was_zero:
+                    f.append("zero-token-doc:replaced-by-no-value")
+                    zero_gone = True
+                toks.pop(c[1], None)
         elif op == "unindex":
             f.append("unindex:%s" % ("known" if c[1] in known else "unknown"))
             known.pop(c[1], None)
+            if c[1] in toks and not toks[c[1]]:
+                f.append("zero-token-doc:unindexed")
+                zero_gone = True
+            toks.pop(c[1], None)
         elif op == "reset":
             known = {}
+            toks = {}
+            zero_gone = False
             f.append("reset")
+        elif op in ("obs", "obsfresh"):
+            f.append(op + (":after-zero-token-doc-removed" if zero_gone else ""))
         elif op in ("q", "nq", "qk"):
             q = dec(c[2])
             f.append("%s:%s:%s" % (op, c[1], "empty" if o == "{}" else "nonempty" if o.startswith("{") else o))
+            if op == "nq" and zero_gone:
+                f.append("nq:after-zero-token-doc-removed")
+            if op == "nq" and any(not ws for ws in toks.values()):
+                f.append("nq:zero-token-doc-present")
+            globs = [g for g in re.findall(r"[\w*?]+", q.lower()) if "*" in g or "?" in g]
+            vocab = set().union(*[ws for d, ws in toks.items() if d != 1000]) if globs and toks else set()
+            for g in globs:                                 # (the bulk document's filler words are left out)
+                for k in glob_classes(g, vocab):
+                    f.append(k)
+                    if "(" in k or "beyond" in k:
+                        f.append(k + ":" + op)
             if '"' in q or re.search(r"\w[-./']\w", q):
                 f.append("query:phrase")
                 if o.startswith("{") and o != "{}" and op == "q":
@@ -473,6 +611,9 @@ def features(case, outs):
                 f.append("query:or")
             if "(" in q:
                 f.append("query:paren")
+    for k in sorted(set(f)):
+        if k.startswith(("glob:", "nq:after", "nq:zero", "zero-token-doc:")) and k.count(":") == 1:
+            f.append("case:" + k)
     return f
 
 
